@@ -72,7 +72,7 @@ func reflGoFlavour(mt protoreflect.MessageType) string {
 			return "open"
 		}
 	}
-	return "other"
+	return "open0" // generated before the protogen tag existed: open structs
 }
 
 func reflGen(mt protoreflect.MessageType) reflFlavour {
@@ -673,7 +673,7 @@ func reflListArg(c *Ctx, op, curLen int) int {
 		switch {
 		case curLen > 0 && c.Intn(6) != 0:
 			return c.Intn(curLen + 1)
-		case c.Intn(3) == 0:
+		case c.Intn(12) == 0:
 			return curLen + 1 + c.Intn(2) // beyond the end: must panic
 		}
 		return curLen
@@ -1381,7 +1381,9 @@ func famRefl(c *Ctx) {
 				x.genOp()
 			}
 		}()
-		x.emit(id, init)
+		if x.nops > 0 {
+			x.emit(id, init)
+		}
 		c.Stat("hist_" + fl.name)
 		c.StatN("ops_total", x.nops)
 	}
